@@ -5,7 +5,11 @@
    (C) the output is sorted by start (streams sorted by start); with the single emitter 0 the
        output is disjoint_sorted (streams disjoint_sorted);
    (B) on internally disjoint operands the output covers exactly the instants covered by every
-       operand, whatever the (non-empty) emitter selection. *)
+       operand, whatever the (non-empty) emitter selection;
+   (D) on internally disjoint operands the output is a permutation of the per-event reference
+       inter_ref' (one trimmed copy per selected operand for every choice of one event per
+       operand with a non-empty common part), and of Spec.inter_ref for the selections
+       emit_sel derived from mask flags. *)
 From CG Require Import Proofs.Defs.
 
 (* ------------------------------------------------------------------------------------ *)
@@ -1060,7 +1064,7 @@ Proof.
     - cbn [andb negb orb]. rewrite andb_true_r. reflexivity. }
   (* an instant of the remaining common coverage that precedes the cutoff is in the region *)
   assert (Hin_reg : inT ss1 t = true -> t < oe -> (os <=? t) && (t <? oe) = true).
-  { intros HT Ht. pose proof (inT_before ss1 act t Hok1 Ha1 Hn HT Ht). fold os in H0. lia. }
+  { intros HT Ht. pose proof (inT_before ss1 act t Hok1 Ha1 Hn HT Ht) as Hbef. fold os in Hbef. lia. }
   assert (Hexh_reg : (forall s0, In s0 ss1 -> ends_at oe s0 = false) ->
                      inT ss1 t = true -> t < oe).
   { intros Hno HT. destruct (exhausted_at_cutoff ss1 act Ha1 Hn Hno) as (m & c & Hm & Hcm & Hfe & Hex).
@@ -1445,8 +1449,9 @@ Proof.
       assert (Hadv : fst (advance s) = mkS (cur s) [] true (lpc s)).
       { unfold advance. rewrite He, Er. reflexivity. }
       assert (Hrem : map remaining (l1 ++ fst (advance s) :: l2) = map remaining (l1 ++ s :: l2)).
-      { rewrite !map_app. cbn [map]. rewrite Hadv. unfold remaining at 2 4. cbn [cur rest].
-        rewrite Er. reflexivity. }
+      { assert (Hr' : remaining (fst (advance s)) = remaining s).
+        { rewrite Hadv. unfold remaining. cbn [cur rest]. rewrite Er. reflexivity. }
+        rewrite !map_app. cbn [map]. rewrite Hr'. reflexivity. }
       assert (Hdone : done_of sel (l1 ++ fst (advance s) :: l2) act = done_of sel (l1 ++ s :: l2) act).
       { unfold done_of. destruct (max_start act <? min_end act); [|reflexivity].
         apply done_emit_replace; [rewrite Hadv; reflexivity|exact Hlpc]. }
@@ -1465,7 +1470,8 @@ Proof.
       rewrite Hdone3 in IHo. cbn [app] in IHo.
       assert (Hrem1 : map remaining (l1 ++ s :: l2) =
                       map remaining l1 ++ (c :: x :: r) :: map remaining l2).
-      { rewrite map_app. cbn [map]. unfold remaining at 2. rewrite Hc, Er. reflexivity. }
+      { assert (Hr' : remaining s = c :: x :: r) by (unfold remaining; rewrite Hc, Er; reflexivity).
+        rewrite map_app. cbn [map]. rewrite Hr'. reflexivity. }
       assert (Hrem3 : map remaining (l1 ++ fst (advance s) :: l2) =
                       map remaining l1 ++ (x :: r) :: map remaining l2).
       { rewrite map_app. cbn [map]. rewrite Hadv. reflexivity. }
@@ -1518,6 +1524,294 @@ Proof.
 Qed.
 
 (* ------------------------------------------------------------------------------------ *)
+(* (E) the reference of (D) is, up to order, the per-event reference semantics inter_ref of
+   Spec/Sets.v (on internally disjoint operands, where its de-duplication of regions is void) *)
+
+Lemma NoDup_app_intro {A} (l1 l2 : list A) :
+  NoDup l1 -> NoDup l2 -> (forall x, In x l1 -> ~ In x l2) -> NoDup (l1 ++ l2).
+Proof.
+  induction l1 as [|a l1 IH]; intros H1 H2 H12; [exact H2|]. inversion H1 as [|? ? Ha Hl1]; subst.
+  cbn [app]. constructor.
+  - intro Hin. apply in_app_or in Hin as [Hin|Hin]; [exact (Ha Hin)|].
+    exact (H12 a (or_introl eq_refl) Hin).
+  - apply IH; [exact Hl1|exact H2|]. intros x Hx. apply H12. right; exact Hx.
+Qed.
+
+Lemma NoDup_flat_map_intro {A B} (g : A -> list B) l :
+  NoDup l -> (forall a, In a l -> NoDup (g a)) ->
+  (forall a b z, In a l -> In b l -> In z (g a) -> In z (g b) -> a = b) ->
+  NoDup (flat_map g l).
+Proof.
+  induction l as [|a l IH]; intros Hl Hg Hinj; [constructor|]. inversion Hl as [|? ? Ha Hl']; subst.
+  cbn [flat_map]. apply NoDup_app_intro.
+  - apply Hg. left; reflexivity.
+  - apply IH; [exact Hl'| |].
+    + intros b Hb. apply Hg. right; exact Hb.
+    + intros b c z Hb Hc. apply Hinj; right; assumption.
+  - intros z Hz Hz'. apply in_flat_map in Hz' as (b & Hb & Hzb).
+    assert (a = b) by (eapply Hinj; [left; reflexivity|right; exact Hb|exact Hz|exact Hzb]).
+    subst b. exact (Ha Hb).
+Qed.
+
+Lemma NoDup_map_cons {A} (x : A) l : NoDup l -> NoDup (map (cons x) l).
+Proof.
+  induction 1 as [|a l Ha Hl IH]; cbn [map]; constructor; [|exact IH].
+  intro Hin. apply in_map_iff in Hin as (b & Eb & Hb). injection Eb as ->. exact (Ha Hb).
+Qed.
+
+Lemma choices_in : forall L cs, In cs (choices L) -> tuple_in cs L.
+Proof.
+  induction L as [|l R IH]; intros cs H; cbn [choices] in H.
+  - destruct H as [<-|[]]. constructor.
+  - apply in_flat_map in H as (x & Hx & H). apply in_map_iff in H as (cs' & <- & Hcs').
+    constructor; [exact Hx|apply IH; exact Hcs'].
+Qed.
+
+Lemma NoDup_choices : forall L, Forall (@NoDup ivl) L -> NoDup (choices L).
+Proof.
+  induction L as [|l R IH]; intro H; cbn [choices].
+  - constructor; [intros []|constructor].
+  - inversion H as [|? ? Hl HR]; subst. apply NoDup_flat_map_intro.
+    + exact Hl.
+    + intros a _. apply NoDup_map_cons. apply IH; exact HR.
+    + intros a b z _ _ Ha Hb. apply in_map_iff in Ha as (ca & <- & _).
+      apply in_map_iff in Hb as (cb & Eb & _). injection Eb as -> _. reflexivity.
+Qed.
+
+Lemma disjoint_NoDup l : Forall wf_ivl l -> disjoint_sorted l -> NoDup l.
+Proof.
+  induction l as [|x r IH]; intros Hwf Hd; [constructor|]. inversion Hwf as [|? ? Hx Hr]; subst.
+  destruct Hd as [Hxr Hd]. constructor; [|apply IH; assumption].
+  intro Hin. specialize (Hxr x Hin). destruct Hx as (_ & Hx & _). lia.
+Qed.
+
+Lemma disjoint_unique l : Forall wf_ivl l -> disjoint_sorted l ->
+  forall a b t, In a l -> In b l -> inside a t = true -> inside b t = true -> a = b.
+Proof.
+  induction l as [|x r IH]; intros Hwf Hd a b t Ha Hb Ia Ib; [destruct Ha|].
+  inversion Hwf as [|? ? Hwx Hwr]; subst. destruct Hd as [Hx Hr].
+  destruct Ha as [<-|Ha]; destruct Hb as [<-|Hb].
+  - reflexivity.
+  - exfalso. specialize (Hx b Hb). unfold inside in *. lia.
+  - exfalso. specialize (Hx a Ha). unfold inside in *. lia.
+  - eapply IH; eauto.
+Qed.
+
+Lemma tuple_unique : forall L, Forall (Forall wf_ivl) L -> Forall disjoint_sorted L ->
+  forall c c' t, tuple_in c L -> tuple_in c' L ->
+  (forall y, In y c -> inside y t = true) -> (forall y, In y c' -> inside y t = true) -> c = c'.
+Proof.
+  intros L Hwf Hd c c' t Hc. revert c' Hwf Hd.
+  induction Hc as [|y l c L Hy Hc IH]; intros c' Hwf Hd Hc' Hi Hi'; inversion Hc' as [|y' ? c'' ? Hy' Hc'']; subst.
+  - reflexivity.
+  - inversion Hwf; subst. inversion Hd; subst. f_equal.
+    + eapply disjoint_unique with (l := l) (t := t); eauto; [apply Hi|apply Hi']; left; reflexivity.
+    + apply IH; auto; intros z Hz; [apply Hi|apply Hi']; right; exact Hz.
+Qed.
+
+Lemma dedup_NoDup l : NoDup l -> dedup l = l.
+Proof.
+  induction 1 as [|p l Hp Hl IH]; [reflexivity|]. cbn [dedup]. rewrite IH.
+  destruct (existsb (zz_eqb p) l) eqn:E; [exfalso|reflexivity].
+  apply existsb_exists in E as (q & Hq & Hpq). unfold zz_eqb in Hpq.
+  destruct p as [p1 p2], q as [q1 q2]. cbn [fst snd] in Hpq.
+  apply andb_true_iff in Hpq as [H1 H2]. apply Z.eqb_eq in H1, H2. subst q1 q2. exact (Hp Hq).
+Qed.
+
+Definition gspan (x : ivl) (c : list ivl) : list (Z * Z) :=
+  let os := max_start (x :: c) in let oe := min_end (x :: c) in if os <? oe then [(os, oe)] else [].
+
+Lemma spans_for_disjoint x oth :
+  Forall (Forall wf_ivl) oth -> Forall disjoint_sorted oth ->
+  spans_for x oth = flat_map (gspan x) (choices oth).
+Proof.
+  intros Hwf Hd. unfold spans_for. fold (gspan x). apply dedup_NoDup.
+  apply NoDup_flat_map_intro.
+  - apply NoDup_choices. rewrite Forall_forall in *. intros l Hl. apply disjoint_NoDup; auto.
+  - intros a _. unfold gspan. cbv zeta. destruct (_ <? _); [constructor; [intros []|constructor]|constructor].
+  - intros a b z Ha Hb Hza Hzb. unfold gspan in Hza, Hzb. cbv zeta in Hza, Hzb.
+    destruct (max_start (x :: a) <? min_end (x :: a)) eqn:Ea; [|destruct Hza].
+    destruct (max_start (x :: b) <? min_end (x :: b)) eqn:Eb; [|destruct Hzb].
+    destruct Hza as [<-|[]]. destruct Hzb as [Hzb|[]]. injection Hzb as E1 E2.
+    change (max_start (x :: b) = max_start (x :: a)) in E1.
+    change (min_end (x :: b) = min_end (x :: a)) in E2.
+    apply (tuple_unique oth Hwf Hd a b (max_start (x :: a))); [apply choices_in; exact Ha|apply choices_in; exact Hb| |].
+    + intros y Hy. pose proof (max_start_ge (x :: a) y (or_intror Hy)).
+      pose proof (min_end_le (x :: a) y (or_intror Hy)). unfold inside. lia.
+    + intros y Hy. pose proof (max_start_ge (x :: b) y (or_intror Hy)).
+      pose proof (min_end_le (x :: b) y (or_intror Hy)). unfold inside. lia.
+Qed.
+
+(* ---- rearranging sums ---- *)
+
+Lemma flat_map_swap {A B C} (F : A -> B -> list C) la lb :
+  Permutation (flat_map (fun a => flat_map (F a) lb) la)
+              (flat_map (fun b => flat_map (fun a => F a b) la) lb).
+Proof.
+  induction la as [|a la IH]; cbn [flat_map].
+  - rewrite flat_map_nil; [constructor|reflexivity].
+  - eapply Permutation_trans; [apply Permutation_app_head; exact IH|].
+    symmetry. apply (flat_map_app_perm (F a) (fun b => flat_map (fun a0 => F a0 b) la)).
+Qed.
+
+Lemma flat_map_comp {A B C} (g : B -> list C) (h : A -> B) l :
+  flat_map g (map h l) = flat_map (fun x => g (h x)) l.
+Proof. induction l as [|a l IH]; [reflexivity|]. cbn [map flat_map]. rewrite IH. reflexivity. Qed.
+
+Lemma map_flat_map {A B C} (h : B -> C) (g : A -> list B) l :
+  map h (flat_map g l) = flat_map (fun x => map h (g x)) l.
+Proof. induction l as [|a l IH]; [reflexivity|]. cbn [flat_map]. rewrite map_app, IH. reflexivity. Qed.
+
+Lemma flat_map_ext_in {A B} (g h : A -> list B) l :
+  (forall x, In x l -> g x = h x) -> flat_map g l = flat_map h l.
+Proof.
+  induction l as [|a l IH]; intro H; [reflexivity|]. cbn [flat_map].
+  rewrite (H a (or_introl eq_refl)), IH; [reflexivity|]. intros x Hx. apply H. right; exact Hx.
+Qed.
+
+Lemma G_ext_in {A} (f f' : list ivl -> list A) L :
+  (forall cs, tuple_in cs L -> f cs = f' cs) -> G f L = G f' L.
+Proof. intro H. unfold G. apply flat_map_ext_in. intros cs Hcs. apply H. apply choices_in. exact Hcs. Qed.
+
+(* pulling operand number [length L1] out of the choices *)
+Lemma G_pull {A} l L2 : forall L1 (f : list ivl -> list A),
+  Permutation (G f (L1 ++ l :: L2))
+    (flat_map (fun x => G (fun c => f (firstn (length L1) c ++ x :: skipn (length L1) c)) (L1 ++ L2)) l).
+Proof.
+  induction L1 as [|a L1 IH]; intro f; cbn [app length].
+  - rewrite G_cons. cbn [firstn skipn app]. apply Permutation_refl.
+  - rewrite G_cons. eapply Permutation_trans.
+    + apply flat_map_perm_pointwise. intros y _. apply IH.
+    + eapply Permutation_trans; [apply flat_map_swap|].
+      apply flat_map_perm_pointwise. intros x _. rewrite G_cons. cbn [firstn skipn app].
+      apply Permutation_refl.
+Qed.
+
+Lemma tuple_in_length cs L : tuple_in cs L -> length cs = length L.
+Proof. apply Forall2_len. Qed.
+
+Lemma max_start_perm a b : Permutation a b -> max_start a = max_start b.
+Proof.
+  intro P. destruct a as [|x a].
+  - apply Permutation_nil in P. subst b. reflexivity.
+  - assert (Hb : b <> []). { intro E. subst b. apply Permutation_sym, Permutation_nil in P. discriminate. }
+    destruct (max_start_in (x :: a)) as (c & Hc & Ec); [discriminate|].
+    destruct (max_start_in b Hb) as (c' & Hc' & Ec').
+    pose proof (max_start_ge b c (Permutation_in _ P Hc)).
+    pose proof (max_start_ge (x :: a) c' (Permutation_in _ (Permutation_sym P) Hc')). lia.
+Qed.
+
+Lemma min_end_perm a b : Permutation a b -> min_end a = min_end b.
+Proof.
+  intro P. destruct a as [|x a].
+  - apply Permutation_nil in P. subst b. reflexivity.
+  - assert (Hb : b <> []). { intro E. subst b. apply Permutation_sym, Permutation_nil in P. discriminate. }
+    destruct (min_end_in (x :: a)) as (c & Hc & Ec); [discriminate|].
+    destruct (min_end_in b Hb) as (c' & Hc' & Ec').
+    pose proof (min_end_le b c (Permutation_in _ P Hc)).
+    pose proof (min_end_le (x :: a) c' (Permutation_in _ (Permutation_sym P) Hc')). lia.
+Qed.
+
+(* ---- the two references ---- *)
+
+Definition dflt : ivl := mkI None None Plain.
+
+(* the contribution of operand i to the tuple cs *)
+Definition contrib (i : nat) (cs : list ivl) : list ivl :=
+  if max_start cs <? min_end cs
+  then [set_span (nth i cs dflt) (unS (max_start cs)) (unE (min_end cs))] else [].
+
+Lemma tup_emit_seq os oe sel : forall cs i0,
+  tup_emit os oe sel i0 cs =
+  flat_map (fun j => if sel (i0 + j)%nat then [set_span (nth j cs dflt) (unS os) (unE oe)] else [])
+           (seq 0 (length cs)).
+Proof.
+  induction cs as [|c r IH]; intro i0; [reflexivity|].
+  cbn [tup_emit length seq flat_map nth]. rewrite Nat.add_0_r. f_equal.
+  rewrite <- seq_shift, flat_map_comp, IH. apply flat_map_ext. intro j.
+  rewrite Nat.add_succ_r. reflexivity.
+Qed.
+
+Lemma ref_tuple_seq sel cs :
+  ref_tuple sel cs = flat_map (fun i => if sel i then contrib i cs else []) (seq 0 (length cs)).
+Proof.
+  unfold ref_tuple, contrib. destruct (max_start cs <? min_end cs).
+  - rewrite tup_emit_seq. reflexivity.
+  - symmetry. apply flat_map_nil. intros i _. destruct (sel i); reflexivity.
+Qed.
+
+Definition inter_ref_sel (sel : nat -> bool) (ls : list (list ivl)) : list ivl :=
+  flat_map (fun i =>
+              if sel i then
+                flat_map (fun x => map (fun p => set_span x (unS (fst p)) (unE (snd p)))
+                                       (spans_for x (others i ls)))
+                         (nth i ls [])
+              else [])
+           (seq 0 (length ls)).
+
+Lemma inter_ref_is_sel masks ls : inter_ref masks ls = inter_ref_sel (emit_sel masks) ls.
+Proof. destruct ls; reflexivity. Qed.
+
+Lemma others_app (L1 : list (list ivl)) l L2 : others (length L1) (L1 ++ l :: L2) = L1 ++ L2.
+Proof.
+  unfold others. induction L1 as [|a L1 IH]; [reflexivity|].
+  cbn [length app firstn skipn] in *. rewrite IH. reflexivity.
+Qed.
+
+Lemma nth_app_mid {A} (L1 : list A) l L2 d : nth (length L1) (L1 ++ l :: L2) d = l.
+Proof. induction L1 as [|a L1 IH]; [reflexivity|exact IH]. Qed.
+
+Lemma operand_contrib L1 l L2 :
+  Forall (Forall wf_ivl) (L1 ++ L2) -> Forall disjoint_sorted (L1 ++ L2) ->
+  Permutation
+    (G (contrib (length L1)) (L1 ++ l :: L2))
+    (flat_map (fun x => map (fun p => set_span x (unS (fst p)) (unE (snd p))) (spans_for x (L1 ++ L2))) l).
+Proof.
+  intros Hwf Hd. eapply Permutation_trans; [apply G_pull|].
+  apply flat_map_perm_pointwise. intros x _.
+  rewrite (spans_for_disjoint x _ Hwf Hd), map_flat_map. fold (G (fun c => map (fun p => set_span x (unS (fst p)) (unE (snd p))) (gspan x c)) (L1 ++ L2)).
+  rewrite (G_ext_in _ (fun c => map (fun p => set_span x (unS (fst p)) (unE (snd p))) (gspan x c)));
+    [apply Permutation_refl|].
+  intros c Hc. apply tuple_in_length in Hc. rewrite app_length in Hc.
+  assert (HP : Permutation (firstn (length L1) c ++ x :: skipn (length L1) c) (x :: c)).
+  { symmetry. rewrite <- (firstn_skipn (length L1) c) at 1. apply Permutation_middle. }
+  unfold contrib, gspan. cbv zeta. rewrite (max_start_perm _ _ HP), (min_end_perm _ _ HP).
+  destruct (max_start (x :: c) <? min_end (x :: c)); [|reflexivity]. cbn [map fst snd].
+  assert (Hlen : length (firstn (length L1) c) = length L1) by (apply firstn_length_le; lia).
+  rewrite <- Hlen at 1. rewrite nth_app_mid. reflexivity.
+Qed.
+
+Theorem inter_ref_perm sel ls :
+  Forall (Forall wf_ivl) ls -> Forall disjoint_sorted ls ->
+  Permutation (inter_ref' sel ls) (inter_ref_sel sel ls).
+Proof.
+  intros Hwf Hd. unfold inter_ref', inter_ref_sel.
+  eapply Permutation_trans.
+  { apply flat_map_perm_pointwise with
+      (h := fun cs => flat_map (fun i => if sel i then contrib i cs else []) (seq 0 (length ls))).
+    intros cs Hcs. rewrite ref_tuple_seq, (tuple_in_length cs ls (choices_in _ _ Hcs)).
+    apply Permutation_refl. }
+  eapply Permutation_trans; [apply flat_map_swap|].
+  apply flat_map_perm_pointwise. intros i Hi. apply in_seq in Hi.
+  destruct (sel i); [|rewrite flat_map_nil; [constructor|reflexivity]].
+  destruct (nth_split ls [] (proj2 Hi)) as (L1 & L2 & Els & Hlen).
+  revert Els. generalize (nth i ls []). intros l Els. subst ls i.
+  rewrite others_app.
+  apply Forall_app in Hwf as [W1 W2]. apply Forall_app in Hd as [D1 D2].
+  inversion W2; subst. inversion D2; subst.
+  apply operand_contrib; apply Forall_app; split; assumption.
+Qed.
+
+Theorem inter_sweep_is_ref masks streams :
+  (2 <= length streams)%nat ->
+  Forall (Forall wf_ivl) streams -> Forall disjoint_sorted streams ->
+  Permutation (inter_sweep streams (emit_sel masks)) (inter_ref masks streams).
+Proof.
+  intros Hk Hwf Hd. rewrite inter_ref_is_sel.
+  eapply Permutation_trans; [apply inter_sweep_exact; assumption|apply inter_ref_perm; assumption].
+Qed.
+
+(* ------------------------------------------------------------------------------------ *)
 (* summary statements *)
 
 (* (A) in the form asked for: every emission is the current event of a selected operand with
@@ -1535,10 +1829,10 @@ Proof.
   destruct (nth_error streams i) as [l|] eqn:El; [|apply nth_error_None in El; lia].
   exists i, l, c. split; [exact El|]. split; [exact Hs|].
   assert (Hcl : In c l).
-  { clear - Hcs Hn El. revert i Hn El. induction Hcs as [|c0 l0 cs streams H0 Hr IH]; intros i Hn El.
+  { clear - Hcs Hn El. revert i Hn El. induction Hcs as [|c0 l0 cs streams Hc0 Hr IH]; intros i Hn El.
     - destruct i; discriminate.
     - destruct i as [|i]; cbn [nth_error] in *.
-      + injection Hn as <-. injection El as <-. exact H0.
+      + injection Hn as <-. injection El as <-. exact Hc0.
       + eapply IH; eauto. }
   split; [exact Hcl|]. split; [reflexivity|].
   rewrite fstart_set_span. unfold set_span. rewrite fend_unE.
@@ -1551,3 +1845,4 @@ Print Assumptions inter_sweep_sorted.
 Print Assumptions inter_sweep_single_disjoint.
 Print Assumptions inter_sweep_cover.
 Print Assumptions inter_sweep_exact.
+Print Assumptions inter_sweep_is_ref.
